@@ -17,7 +17,7 @@
 (***************************************************************************)
 EXTENDS LinSys, Json, IOUtils, SequencesExt
 
-CONSTANTS MaxN, BigN, TallN, MaxM
+CONSTANTS MaxN, BigN, TallN, MaxM, WMax
 
 Flat(P) == [t \in 1..(Rows(P) * Cols(P)) |->
               P[((t - 1) \div Cols(P)) + 1][((t - 1) % Cols(P)) + 1]]
@@ -97,8 +97,13 @@ PivotCases ==
                      P \in {Q \in Patterns(n, n) :
                                ZeroDiagonal(Q) /\ Class(Q) = "GenericallyRegular"}})]
 
+WTallCases ==
+    SetToSeq({[type |-> c.type - 1, order |-> c.order - 1, m1 |-> c.m1,
+               m2 |-> c.m2, weighted |-> IF c.weighted THEN 1 ELSE 0] :
+                 c \in WeightedTallCases(3, WMax)})
+
 Table == [small |-> SmallCases, big |-> BigCases, tall |-> TallCases,
-          values |-> ValueClasses, pivot |-> PivotCases]
+          values |-> ValueClasses, pivot |-> PivotCases, wtall |-> WTallCases]
 
 ASSUME JsonSerialize(IOEnv.LINSYS_OUT, Table)
 
